@@ -29,16 +29,16 @@ theorem Good.of_count_add {f : Forest} (hg : Good f) (roots' : List HTree) (n' :
       rw [if_neg hlt']; omega
 
 mutual
-  theorem mapAt_id (h : Nat) (g : HTree → HTree) (hg : ∀ t, g t = t) : ∀ t : HTree, mapAt h g t = t
+  theorem ff_mapAt_id (h : Nat) (g : HTree → HTree) (hg : ∀ t, g t = t) : ∀ t : HTree, mapAt h g t = t
     | .node h' v ks => by
       unfold mapAt
       split
       · exact hg _
-      · rw [mapAtList_id h g hg ks]
-  theorem mapAtList_id (h : Nat) (g : HTree → HTree) (hg : ∀ t, g t = t) : ∀ ks : List HTree,
+      · rw [ff_mapAtList_id h g hg ks]
+  theorem ff_mapAtList_id (h : Nat) (g : HTree → HTree) (hg : ∀ t, g t = t) : ∀ ks : List HTree,
       mapAtList h g ks = ks
     | [] => rfl
-    | k :: ks => by simp only [mapAtList]; rw [mapAt_id h g hg k, mapAtList_id h g hg ks]
+    | k :: ks => by simp only [mapAtList]; rw [ff_mapAt_id h g hg k, ff_mapAtList_id h g hg ks]
 end
 
 theorem appKids_nil (t : HTree) : appKids [] t = t := by
@@ -83,7 +83,7 @@ theorem appendNew_spec (f : Forest) (hg : Good f) {p : Nat} {tp x : HTree} (n' :
     rw [← mapAtList_eq_map]
     exact findList?_appended p x.handle x rfl f.roots hxm hpm
   · show findList? p (f.roots.map (mapAt p (appKids [x]))) = some (appKids [x] tp)
-    rw [← mapAtList_eq_map, findList?_mapAtList_self p _ (appKids_handle [x])]
+    rw [← mapAtList_eq_map, ff_findList?_mapAtList_self p _ (appKids_handle [x])]
     have : findList? p f.roots = some tp := hget
     rw [this]; rfl
 
@@ -189,7 +189,7 @@ mutual
       · intro h hh; simp [handlesList] at hh
       · simp [handlesList]
       · have : f.roots.map (mapAt p (appKids [])) = f.roots := by
-          rw [← mapAtList_eq_map]; exact mapAtList_id p _ appKids_nil f.roots
+          rw [← mapAtList_eq_map]; exact ff_mapAtList_id p _ appKids_nil f.roots
         simp [topDownList, FContent.sizeList, this]
     | c :: cs, f, p, tp, hg, hget, hpv, hwf, hadj, hfirst => by
       simp only [FContent.wfList, Bool.and_eq_true] at hwf
@@ -206,7 +206,7 @@ mutual
         simp [hpm, handlesList]
       have hget1 : f1.get? p = some (appKids [t] tp) := by
         show findList? p (f.roots.map (mapAt p (appKids [t]))) = some (appKids [t] tp)
-        rw [← mapAtList_eq_map, findList?_mapAtList_self p _ (appKids_handle [t])]
+        rw [← mapAtList_eq_map, ff_findList?_mapAtList_self p _ (appKids_handle [t])]
         have : findList? p f.roots = some tp := hget
         rw [this]; rfl
       have hadj' : f.consolidation = true → noAdjacentFText cs = true := by
